@@ -487,7 +487,7 @@ class World:
             v = rng.random() < 0.5
             if m.kind in 'tf':
                 nk = 't' if v else 'f'
-                ty = KIND_TYPE[nk] | (256 if m.ref else 0) | (512 if m.kconst else 0)
+                ty = KIND_TYPE[nk]
                 self.emit('setbool %d %d' % (self.handle(m), 1 if v else 0), [str(ty)])
                 m.kind = nk
             else:
